@@ -3,6 +3,7 @@ package main
 // Calls (modular: callee contracts only), returns, frames.
 
 import (
+	"go/token"
 	"fmt"
 	"go/types"
 	"sort"
@@ -75,6 +76,10 @@ func (g *FnGen) execCall(s *State, ins ssa.Instruction, com *ssa.CallCommon, res
 		return
 	}
 	if mc, ok := com.Value.(*ssa.MakeClosure); ok && !com.IsInvoke() {
+		g.execClosureCall(s, mc, com, res)
+		return
+	}
+	if mc := localClosure(com.Value); mc != nil && !com.IsInvoke() {
 		g.execClosureCall(s, mc, com, res)
 		return
 	}
@@ -699,4 +704,40 @@ func (g *FnGen) execCopy(s *State, com *ssa.CallCommon, res ssa.Value) {
 	if res != nil {
 		g.vals[res] = &Val{term: n}
 	}
+}
+
+
+// localClosure: v is a load of a local variable that is assigned exactly once, a closure literal, and whose address
+// is used for nothing but loads (`f := func() {...}; ...; f()`).
+func localClosure(v ssa.Value) *ssa.MakeClosure {
+	ld, ok := v.(*ssa.UnOp)
+	if !ok || ld.Op != token.MUL {
+		return nil
+	}
+	al, ok := ld.X.(*ssa.Alloc)
+	if !ok || al.Referrers() == nil {
+		return nil
+	}
+	var mc *ssa.MakeClosure
+	for _, r := range *al.Referrers() {
+		switch x := r.(type) {
+		case *ssa.Store:
+			if x.Addr != al {
+				return nil // the variable's address escapes into another cell
+			}
+			m, ok := x.Val.(*ssa.MakeClosure)
+			if !ok || mc != nil {
+				return nil
+			}
+			mc = m
+		case *ssa.UnOp:
+			if x.Op != token.MUL {
+				return nil
+			}
+		case *ssa.DebugRef:
+		default:
+			return nil
+		}
+	}
+	return mc
 }
